@@ -205,6 +205,8 @@ class simplify_chained_calls(FuncADLNodeTransformer):
         source = args[0]
         func_f = args[1]
         assert isinstance(func_f, ast.Lambda)
+        # func_g moves under func_f's argument: make sure that name means nothing in func_g
+        func_f = make_args_unique(func_f)
         func_g = selection
 
         lambda_select = lambda_body_replace(
@@ -278,6 +280,8 @@ class simplify_chained_calls(FuncADLNodeTransformer):
         seq = args[0]
         func_f = args[1]
         assert isinstance(func_f, ast.Lambda)
+        # func_g moves under func_f's argument: make sure that name means nothing in func_g
+        func_f = make_args_unique(func_f)
         func_g = selection
 
         captured_arg = func_f.args.args[0].arg
@@ -374,6 +378,8 @@ class simplify_chained_calls(FuncADLNodeTransformer):
         seq = args[0]
         func_f = args[1]
         assert isinstance(func_f, ast.Lambda)
+        # func_g moves under func_f's argument: make sure that name means nothing in func_g
+        func_f = make_args_unique(func_f)
 
         func_g = filter
         lambda_where = lambda_body_replace(
